@@ -105,6 +105,44 @@ Proof. exact @mmap_find_spec. Qed.
 Theorem C10_wf_preserved : forall (A : Type) (rs rl : A -> N) m L, reachable rs rl m L -> wf_layout rs rl L.
 Proof. exact @wf_preserved_lemma. Qed.
 
+(* the implementation model satisfies the executable spec checker on EVERY history (any length, any
+   operands, both build profiles): documented error class or new valid map = old set +/- one region *)
+Theorem C10_model_ok : forall c, ok_C10 c (run_C10 c) = true.
+Proof. exact C10_model_ok_lemma. Qed.
+
+(* after ANY history of new / from_arc_regions / from_ranges / insert_region / remove_region /
+   find_region every map ever produced is a valid layout consisting of live handles, and every
+   live handle is a creatable region (>= 1 byte, end <= 2^64-1) *)
+Theorem C10_history_valid : forall m ops,
+  (forall j L, get (maps (m_final m st0 ops)) j = Some L ->
+     wf_layout g_s g_l L /\ from_pool (pool (m_final m st0 ops)) L = true) /\
+  (forall i g, get (pool (m_final m st0 ops)) i = Some g -> g_id g = i /\ region_ok g_s g_l g).
+Proof. exact history_valid_lemma. Qed.
+
+(* non-vacuity: a concrete history at the top of the address space - adjacent insertion accepted,
+   one-byte overlap and duplicate start refused (Overlap), region ending at 2^64 refused at creation,
+   removal with a wrong size / at a non-start address refused, exact removal returns the handle,
+   lookup of the last byte of a region hits and the byte after it misses *)
+Example C10_nonvacuous :
+  let T := W64 - 24 in
+  run_C10 {| c_mode := Debug; c_ops :=
+    [OFromRanges [(T, 2); (T + 4, 3)]; ONew (T + 2) 2; OInsert 0 2; ONew (T + 6) 2; OInsert 1 3;
+     ONew (T + 4) 1; OInsert 1 4; ONew (W64 - 2) 2; ORemove 1 (T + 2) 3; ORemove 1 (T + 3) 2;
+     ORemove 1 (T + 2) 2; OFind 1 (T + 6); OFind 1 (T + 7); OFind 0 (T + 2)] |} =
+  [mkobs 0 [mkreg 0 T 2; mkreg 1 (T + 4) 3]; mkobs 0 [];
+   mkobs 0 [mkreg 0 T 2; mkreg 2 (T + 2) 2; mkreg 1 (T + 4) 3]; mkobs 0 []; mkobs 4 [];
+   mkobs 0 []; mkobs 4 []; mkobs 1 []; mkobs 1 []; mkobs 1 [];
+   mkobs 0 [mkreg 2 (T + 2) 2; mkreg 0 T 2; mkreg 1 (T + 4) 3];
+   mkobs 0 [mkreg 1 (T + 4) 3]; mkobs 0 []; mkobs 0 []] /\
+  wf_layout g_s g_l [mkreg 0 T 2; mkreg 2 (T + 2) 2; mkreg 1 (T + 4) 3].
+Proof.
+  split; [vm_compute; reflexivity|]. apply wf_layout_before. rewrite W64_val. split.
+  - repeat constructor; cbn; lia.
+  - repeat constructor; unfold before; cbn; lia.
+Qed.
+
+Print Assumptions C10_model_ok.
+Print Assumptions C10_history_valid.
 Print Assumptions C10_region_new_refuses.
 Print Assumptions C10_wf_layout_before.
 Print Assumptions C10_from_ok_iff.
